@@ -27,6 +27,9 @@ CONSTANTS Replicas,      \* actor numbers, e.g. {1, 2}
           WithList,      \* TRUE: the base document holds a list at key "l"
           WithInserts,       \* TRUE: list inserts are part of the programs
           WithRollback,      \* TRUE: programs contain rolled-back (possibly isolated) transactions
+          WithIso,           \* TRUE: programs contain committed transactions isolated at earlier heads (C29)
+          WithConflict3,     \* TRUE: the base document has three concurrent values (counter, int, int) by three
+                             \* actors at key "k1", known to every replica
           WithText,          \* TRUE: the base document holds a text object "a e-acute" at key "t" (instead of the list)
           Enc,               \* text encoding of the documents: "cp", "u8" or "u16"
           WithHist           \* TRUE: finished behaviours also carry the expected views at every
@@ -48,7 +51,11 @@ TextV == [k |-> "obj", s |-> "text", n |-> 0, toks |-> <<>>]
 StrV(tok) == [k |-> "str", s |-> IF tok = "grin" THEN "\\u{1f600}" ELSE IF tok = "eacute" THEN "\\u{e9}" ELSE tok, n |-> 0, toks |-> <<tok>>]
 (* base document, made by actor 1 in one transaction and merged everywhere *)
 BaseOps ==
-  IF WithText THEN
+  IF WithConflict3 THEN
+    {MkOp(<<1, 1>>, ROOT, TRUE, "k1", HEAD, FALSE, "set", CtrV(5), {}),
+     MkOp(<<1, 2>>, ROOT, TRUE, "k1", HEAD, FALSE, "set", IntV(1), {}),
+     MkOp(<<1, 3>>, ROOT, TRUE, "k1", HEAD, FALSE, "set", IntV(2), {})}
+  ELSE IF WithText THEN
     {MkOp(<<1, 1>>, ROOT, TRUE, "t", HEAD, FALSE, "make", TextV, {}),
      MkOp(<<2, 1>>, TEXT, FALSE, "", HEAD, TRUE, "set", StrV("a"), {}),
      MkOp(<<3, 1>>, TEXT, FALSE, "", <<2, 1>>, TRUE, "set", StrV("eacute"), {})}
@@ -84,9 +91,8 @@ Winner(R) == CHOOSE o \in R : o.id = MaxId({p.id : p \in R})
 
 (* result of a put/delete/increment against register R, target described   *)
 (* by (obj, ismap, key, elem):  [res, ops]                                  *)
-GenUpdate(r, R, obj, ismap, key, elem, kind, v) ==
-  LET id == NextId(r)
-      ids == {o.id : o \in R}
+GenUpdateId(id, R, obj, ismap, key, elem, kind, v) ==
+  LET ids == {o.id : o \in R}
   IN
   CASE kind = "put" ->
          IF R # {} /\ Winner(R).act = "set" /\ Winner(R).val = v
@@ -100,6 +106,8 @@ GenUpdate(r, R, obj, ismap, key, elem, kind, v) ==
     [] kind = "inc" ->
          IF \A o \in R : ~IsCtr(o) THEN [res |-> "err", ops |-> {}]
          ELSE [res |-> "ok", ops |-> {MkOp(id, obj, ismap, key, elem, FALSE, "inc", v, ids)}]
+
+GenUpdate(r, R, obj, ismap, key, elem, kind, v) == GenUpdateId(NextId(r), R, obj, ismap, key, elem, kind, v)
 
 (* puts that would compare a counter with a counter are left out: whether   *)
 (* they count as "the same value" depends on the increments (not modelled)  *)
@@ -191,12 +199,42 @@ RolledBack(r) ==
                                 res |-> "any", exp |-> Interp(known[r], Enc)])
        /\ UNCHANGED <<known, chgs>>
 
+(* C29: one call committed in a transaction isolated at an antichain H of the replica's changes.    *)
+(* The call is generated against the ops of H's ancestors only; the op's counter is still one above  *)
+(* everything the replica has; the actor is the first of r, 256+r, 512+r, ... whose latest change    *)
+(* is an ancestor of H (or which has no change yet); the change depends on exactly H.  Afterwards    *)
+(* the document is the interpretation of everything the replica has (the isolated change merged in). *)
+IsoActor(r, H) ==
+  LET anc == AncC(H)
+      ok(a) == \A c \in Have(r) : c[2] = a => c \in anc
+  IN  IF ok(r) THEN r ELSE IF ok(256 + r) THEN 256 + r ELSE IF ok(512 + r) THEN 512 + r ELSE 768 + r
+IsoCall(r) ==
+  /\ WithIso
+  /\ \E H \in AntichainsC(Have(r)) : \E k \in Keys : \E kind \in {"put", "del", "inc"} : \E v \in PutVals :
+       LET O == OpsAt(r, H)
+           R == MapReg(O, ROOT, k)
+           id == <<MaxCtr(known[r]) + 1, IsoActor(r, H)>>
+           g == GenUpdateId(id, R, ROOT, TRUE, k, HEAD, kind, IF kind = "inc" THEN [IntV(0) EXCEPT !.n = 2, !.s = ""] ELSE v)
+           call == IF kind = "put" THEN [fn |-> "put", obj |-> ROOT, key |-> k, val |-> v]
+                   ELSE IF kind = "del" THEN [fn |-> "delete", obj |-> ROOT, key |-> k]
+                   ELSE [fn |-> "increment", obj |-> ROOT, key |-> k, by |-> 2]
+       IN  /\ H # HeadsC(Have(r))
+           /\ (kind # "put" => v = IntV(1))
+           /\ (kind = "put" => PutAllowed(R, v))
+           /\ known' = [known EXCEPT ![r] = @ \cup g.ops]
+           /\ chgs' = IF g.ops = {} THEN chgs ELSE (id :> [ops |-> {id}, deps |-> H]) @@ chgs
+           /\ hist' = Append(hist, [r |-> r, call |-> call, isoat |-> H, res |-> g.res,
+                                    inside |-> Interp(O \cup g.ops, Enc),
+                                    exp |-> Interp(known[r] \cup g.ops, Enc)])
+
 Init ==
   /\ known = [r \in Replicas |-> BaseOps]
   /\ hist = <<>>
-  /\ chgs = IF BaseOps = {} THEN <<>> ELSE (<<1, 1>> :> [ops |-> {o.id : o \in BaseOps}, deps |-> {}])
+  /\ chgs = IF BaseOps = {} THEN <<>>
+            ELSE IF WithConflict3 THEN [c \in {o.id : o \in BaseOps} |-> [ops |-> {c}, deps |-> {}]]
+            ELSE (<<1, 1>> :> [ops |-> {o.id : o \in BaseOps}, deps |-> {}])
 
-Next == Len(hist) < Depth /\ \E r \in Replicas : MapCall(r) \/ ListCall(r) \/ TextCall(r) \/ Merge(r) \/ RolledBack(r)
+Next == Len(hist) < Depth /\ \E r \in Replicas : MapCall(r) \/ ListCall(r) \/ TextCall(r) \/ IsoCall(r) \/ Merge(r) \/ RolledBack(r)
 
 Spec == Init /\ [][Next]_vars
 
@@ -215,7 +253,8 @@ LocalEffect ==
   hist # <<>> =>
     LET h == hist[Len(hist)] IN
     ("call" \in DOMAIN h /\ h.res = "ok" /\ "rolledback" \notin DOMAIN h /\ ~WithText) =>
-      LET after == RegAfter(h.exp, h.call) IN
+      \* an isolated call has its sequential effect on the isolated state (C29)
+      LET after == RegAfter(IF "isoat" \in DOMAIN h THEN h.inside ELSE h.exp, h.call) IN
       CASE h.call.fn \in {"put", "insert"} ->
              /\ Cardinality(after) = 1
              /\ \A x \in after : x.v.k = h.call.val.k /\ (x.v.k # "counter" => x.v = h.call.val)
